@@ -224,3 +224,7 @@ fn('offset.rs', 'impl CubicOffset {', 'eval_offset', 'CubicOffset.eval_offset', 
 fn('offset.rs', 'impl CubicOffset {', 'eval', 'CubicOffset.eval', f'(self : {CO}) (t : K) : {P}')
 fn('offset.rs', 'impl CubicOffset {', 'cusp_sign', 'CubicOffset.cusp_sign', f'(self : {CO}) (t : K) : K')
 fn('offset.rs', 'impl CubicOffset {', 'eval_deriv', 'CubicOffset.eval_deriv', f'(self : {CO}) (t : K) : {V}')
+
+# ---------------------------------------------------------------- scalar multiples of maps (C12)
+fn('translate_scale.rs', 'impl Mul<TranslateScale> for f64', 'mul', 'TranslateScale.scalar_mul', f'(self : K) (other : {TS}) : {TS}')
+fn('affine.rs', 'impl Mul<Affine> for f64', 'mul', 'Affine.scalar_mul', f'(self : K) (other : {A}) : {A}')
